@@ -217,6 +217,20 @@ func (s stubDist) Bounds() (float64, float64) { return 0, 1 }
 func (s stubDist) InvCDF(y float64) float64   { *s.calls++; return 12345.5 + y }
 func (s stubDist) Rand(r *rand.Rand) float64  { *s.calls++; return -777 }
 
+// discreteStub also looks like a discrete distribution (PMF, Step): having a quantile
+// method of its own must still win over any generic treatment of discrete distributions.
+type discreteStub struct{ stubDist }
+
+func (s discreteStub) PMF(x float64) float64 { return 0.25 }
+func (s discreteStub) Step() float64         { return 1 }
+
+// quantileOnlyStub has a quantile method but no Rand.
+type quantileOnlyStub struct{ calls *int }
+
+func (s quantileOnlyStub) CDF(x float64) float64      { return 0.5 }
+func (s quantileOnlyStub) Bounds() (float64, float64) { return 0, 1 }
+func (s quantileOnlyStub) InvCDF(y float64) float64   { *s.calls++; return -99 + y }
+
 type DispatchCase struct {
 	Mu    float64 `json:"mu"`
 	Sigma float64 `json:"sigma"`
@@ -244,9 +258,20 @@ var checkDispatch = ev.Register("dispatch", func(c *DispatchCase) ev.Outcome {
 			return ev.Fail("InvCDF(DeltaDist)(%v) = %v, method gives %v", y, fd(y), dd.InvCDF(y))
 		}
 		before := calls
-		if got := fs(y); !sameF(got, 12345.5+y) || calls != before+1 {
+		if got := fs(y); !sameF(got, 12345.5+y) || calls <= before {
 			return ev.Fail("InvCDF(stub)(%v) = %v: own quantile method not used", y, got)
 		}
+		before = calls
+		if got := stats.InvCDF(discreteStub{sd})(y); !sameF(got, 12345.5+y) || calls <= before {
+			return ev.Fail("InvCDF(discrete stub)(%v) = %v: the distribution has PMF and Step, but also its own quantile method, which was not used", y, got)
+		}
+		qcalls := 0
+		if got := stats.InvCDF(quantileOnlyStub{&qcalls})(y); !sameF(got, -99+y) || qcalls == 0 {
+			return ev.Fail("InvCDF(stub without Rand)(%v) = %v: own quantile method not used", y, got)
+		}
+	}
+	if got := stats.Rand(discreteStub{sd})(rand.New(rand.NewSource(c.Seed))); got != -777 {
+		return ev.Fail("Rand(discrete stub) = %v: own Rand method not used", got)
 	}
 	r1, r2 := rand.New(rand.NewSource(c.Seed)), rand.New(rand.NewSource(c.Seed))
 	rn := stats.Rand(nd)
